@@ -25,6 +25,8 @@ Definition inW (s : st) (f : nat) (h : home) : Prop :=
   | HSlot f' => f' = f
   | HSel _ => True
   | HFast _ => True
+  | HCan _ => True
+  | HKCan _ => True
   | HSub k => spc_ (Sb s k) = SStore
   | _ => False
   end.
